@@ -248,7 +248,8 @@ def c06(p, sc, view):
             first, last = ks[0], ks[-1]
             if not (p["start"] + first * G <= o["start"] < p["start"] + (first + 1) * G):
                 bad.append(f"task {fid}: start {o['start']} is not in its first booked slot {first}")
-            if not (p["start"] + last * G < o["end"] <= p["start"] + (last + 1) * G):
+            # reported times are whole seconds: a tail of less than half a second rounds to the slot start
+            if not (p["start"] + last * G <= o["end"] <= p["start"] + (last + 1) * G):
                 bad.append(f"task {fid}: end {o['end']} is not in its last booked slot {last}")
             if o["start"] >= o["end"]:
                 bad.append(f"task {fid} has work but zero length")
